@@ -141,6 +141,53 @@ def c181(ctx):
     ctx.check(R, f, "outputs-to-taken", any(K.user_locals(f, P.term_at(f, p)["args"][1]) & taken_locals for p in tk),
               "outputs are zipped with waiter.iter().take(taken)", "outputs are not distributed to exactly the taken waiters")
 
+    # ... and to no other: the window of waiters that receive an output is [k, taken), where k outputs were taken off the iterator
+    # by hand before the zip (none today).  `iter().skip(s).take(n)` must have s == k and n == taken - k: a window that reaches one
+    # waiter past the batch hands that waiter a surplus output of a batch that never carried its input.
+    outs_next = []
+    for p_ in P.call_points(f, r"Iterator>::next$|Iterator::next$"):
+        t_ = P.term_at(f, p_)
+        if t_["args"] and any(s_["k"] == "call" and s_.get("pt") in work for s_ in P.origins(f, t_["args"][0])):
+            outs_next.append(p_)
+    k_ = len(outs_next)
+    skips = P.call_points(f, r"Iterator::skip$|iterator::Iterator>::skip$")
+    s_total, s_known = 0, True
+    for p_ in skips:
+        cs = [c_ for c_ in K.arg_consts(f, p_, 1)]
+        cs = [c_.get("v") if isinstance(c_, dict) else c_ for c_ in cs]
+        if len(cs) == 1 and isinstance(cs[0], int):
+            s_total += cs[0]
+        else:
+            s_known = False
+    for p_ in tk:
+        off = _minus_const(f, P.term_at(f, p_)["args"][1], taken_locals)
+        ctx.check(R, f, "outputs-window", s_known and off is not None and s_total == k_ and off == k_,
+                  "outputs go to the waiters [%d, taken): skip %d, take taken - %s, %d taken off by hand" % (k_, s_total, off, k_),
+                  "the waiters that receive an output are not exactly the batched ones: %d output(s) are taken off the iterator by hand, the rest "
+                  "are zipped with iter().skip(%s).take(taken - %s) -- the window is not [%d, taken), so a waiter behind the batch can be handed "
+                  "a surplus output for an input the core never saw" % (k_, s_total if s_known else "?", off, k_), pt=p_)
+
+
+def _minus_const(f, op, base_locals, depth=0):
+    """op == base - c for a user local of base_locals and a constant c >= 0: returns c (0 for base itself), else None."""
+    if op.get("k") not in ("copy", "move") or depth > 6:
+        return None
+    l = op["pl"]["l"]
+    if l in base_locals and not [e for e in op["pl"]["p"] if e != "*"]:
+        return 0
+    ds = [(kind, p_) for (_pt, kind, p_) in P.defs(f).of(l) if kind in ("assign", "call")]
+    if len(ds) != 1 or ds[0][0] != "assign":
+        return None
+    rv = ds[0][1]["rv"]
+    if rv["r"] in ("use", "cast"):
+        return _minus_const(f, rv["a"], base_locals, depth + 1)
+    if rv["r"] == "bin" and rv["op"].startswith("Sub"):
+        b = rv["b"]
+        if b.get("k") == "const" and isinstance(b["c"].get("v"), int):
+            inner = _minus_const(f, rv["a"], base_locals, depth + 1)
+            return None if inner is None else inner + b["c"]["v"]
+    return None
+
 
 def _const_val(f, pt):
     st = f.blocks[pt[0]].st[pt[1]]
